@@ -174,32 +174,41 @@ theorem wrapper_linear_eq_hetero (L : Nat) (s o : List Rat) (p : Pixel) (hs : p.
     (ho : p.label < o.length) : wrapApplyPix (List.zipWith M.linear s o) p = (M.het L s o).applyPix p :=
   wrap_linear_eq_het L s o p hs ho
 
-/-- **nearest-neighbour contract** of `cv2.resize(labels, (W, H), INTER_NEAREST)`: the result has shape
-`H × W`, creates no new label (every entry is an entry of the source), each axis is sampled monotonically at
-`⌊x·n/N⌋`, and a map of the signal's shape is used as it is. -/
-theorem resize_nearest_contract (src : List (List Nat)) (w H W : Nat) (hh : 0 < src.length) (hw : 0 < w)
-    (hrect : ∀ row ∈ src, row.length = w) :
-    (resizeNearest src H W).length = H ∧ (∀ row ∈ resizeNearest src H W, row.length = W) ∧
-    (∀ row ∈ resizeNearest src H W, ∀ v ∈ row, ∃ srow ∈ src, v ∈ srow) ∧
-    (∀ n N x y, x ≤ y → nearIdx n N x ≤ nearIdx n N y) ∧ (∀ n x, x < n → nearIdx n n x = x) ∧
-    labelsFor src src.length (listGetD src 0 []).length = src :=
-  ⟨(resizeNearest_shape src H W).1, (resizeNearest_shape src H W).2, resizeNearest_subset src w H W hh hw hrect,
-    fun n N _ _ h => nearIdx_mono n N h, fun _ _ h => nearIdx_id h, by simp [labelsFor]⟩
+/-- **nearest-neighbour contract** of `cv2.resize(labels, (W, H), INTER_NEAREST)`, for OpenCV's index rule
+`floor(x · (1.0/(N/n)))` in doubles = exact `⌊x·n/N⌋` minus one at the rounding points `dev` (any table `dev`
+of rounding points that are exact breakpoints, `DevOk`): the result has shape `H × W`, creates no new label,
+samples each axis monotonically, never above the exact index, and a map of the signal's shape is used as it is. -/
+theorem resize_nearest_contract (dev : Dev) (hd : DevOk dev = true) (src : List (List Nat)) (w H W : Nat)
+    (hh : 0 < src.length) (hw : 0 < w) (hrect : ∀ row ∈ src, row.length = w) :
+    (resizeNearest dev src H W).length = H ∧ (∀ row ∈ resizeNearest dev src H W, row.length = W) ∧
+    (∀ row ∈ resizeNearest dev src H W, ∀ v ∈ row, ∃ srow ∈ src, v ∈ srow) ∧
+    (∀ n N x y, x ≤ y → nearIdx dev n N x ≤ nearIdx dev n N y) ∧ (∀ n x, x < n → nearIdx dev n n x = x) ∧
+    (∀ n N x, nearIdx dev n N x ≤ nearIdxExact n N x) ∧
+    labelsFor dev src src.length (listGetD src 0 []).length = src :=
+  ⟨(resizeNearest_shape dev src H W).1, (resizeNearest_shape dev src H W).2, resizeNearest_subset dev src w H W hh hw hrect,
+    fun n N _ _ h => nearIdx_mono dev hd n N h, fun _ _ h => nearIdx_id dev hd h, nearIdx_le_exact dev,
+    by simp [labelsFor]⟩
 
 /-- **the label map in force never depends on the call history**: after any sequence of calls with signals of
 positive shapes on one `HeterogeneousLinearModel`, the map used for a signal of shape `H × W` is
 `labelsFor labels H W` — the original labels if the shapes agree, else the nearest-neighbour resize of the
 ORIGINAL labels (never of a previously resized copy). -/
-theorem label_cache_history_free (labels : List (List Nat)) (w : Nat) (hrect : ∀ row ∈ labels, row.length = w)
-    (hw : (listGetD labels 0 []).length = w) (shapes : List (Nat × Nat)) (H W : Nat)
-    (hpos : ∀ s ∈ shapes, 0 < s.1) (hH : 0 < H) :
-    cacheRun labels (shapes ++ [(H, W)]) = labelsFor labels H W :=
-  cacheRun_last labels w hrect hw shapes H W hpos hH
+theorem label_cache_history_free (dev : Dev) (hd : DevOk dev = true) (labels : List (List Nat)) (w : Nat)
+    (hrect : ∀ row ∈ labels, row.length = w) (hw : (listGetD labels 0 []).length = w)
+    (shapes : List (Nat × Nat)) (H W : Nat) (hpos : ∀ s ∈ shapes, 0 < s.1) (hH : 0 < H) :
+    cacheRun dev labels (shapes ++ [(H, W)]) = labelsFor dev labels H W :=
+  cacheRun_last dev hd labels w hrect hw shapes H W hpos hH
 
-/-- the index map OpenCV uses is the model's, along rows and along columns, for all tabulated sizes -/
+/-- the rounding points tabulated from `cv2.resize` for all sizes `n, N ≤ 64` are exact breakpoints (so the
+two theorems above apply to the generated table) … -/
+theorem cv2_rounding_points_ok : DevOk Gen.nearDev = true := by decide +kernel
+
+/-- … and with them the model's index map is OpenCV's, along rows and along columns, for every size pair of
+the full cross-check table (`n, N ≤ 16`; the Python side checks the same identity for all `n, N ≤ 64`) -/
 theorem resize_matches_code : ∀ e ∈ Gen.nearTable,
-    e.2.2.1 = (List.range e.2.1).map (nearIdx e.1 e.2.1) ∧ e.2.2.2 = (List.range e.2.1).map (nearIdx e.1 e.2.1) := by
-  decide
+    e.2.2.1 = (List.range e.2.1).map (nearIdx Gen.nearDev e.1 e.2.1) ∧
+    e.2.2.2 = (List.range e.2.1).map (nearIdx Gen.nearDev e.1 e.2.1) := by
+  decide +kernel
 
 /-! ### the label loop as coded (`DarsiaModel.SignalOps`) computes the clause forms -/
 
@@ -311,8 +320,10 @@ theorem poly_matches_code : ∀ d ∈ Gen.polyDegrees,
 /-! ### non-vacuity -/
 
 /-- coarse call, then native resolution: the original stripes are back -/
-example : cacheRun [[1, 2, 1, 2], [1, 2, 1, 2]] [(1, 2), (2, 4)] = [[1, 2, 1, 2], [1, 2, 1, 2]] ∧
-    cacheRun [[1, 2, 1, 2], [1, 2, 1, 2]] [(1, 2)] = [[1, 1]] := by decide
+example : cacheRun [] [[1, 2, 1, 2], [1, 2, 1, 2]] [(1, 2), (2, 4)] = [[1, 2, 1, 2], [1, 2, 1, 2]] ∧
+    cacheRun [] [[1, 2, 1, 2], [1, 2, 1, 2]] [(1, 2)] = [[1, 1]] := by decide
+/-- a rounding point of OpenCV: 14 → 18, x = 9: exact ⌊9·14/18⌋ = 7, OpenCV takes 6 -/
+example : (14, 18, 9) ∈ Gen.nearDev ∧ nearIdx Gen.nearDev 14 18 9 = 6 ∧ nearIdxExact 14 18 9 = 7 := by decide +kernel
 
 open Darsia.Kern in
 /-- a sequence with unsorted supports, a duplicate row, a kernel change and a value-only update: the weights
